@@ -63,15 +63,8 @@ pub mod zip_archive {
 }
 pub use zip_archive::ZipArchive;
 
-// position of the i-th central directory header when the records are laid out back to back from `start`
-pub open spec fn cd_pos(d: Seq<u8>, start: int, i: int) -> int
-    decreases i
-{ if i <= 0 { start } else { cd_pos(d, start, i - 1) + cdh_len(d, cd_pos(d, start, i - 1)) } }
-// the directory walk of C03: n records, each parsed per APPNOTE, in order
-pub open spec fn dir_parsed(d: Seq<u8>, start: int, files: Seq<ZipFileData>, aoff: u64) -> bool {
-    forall|j: int| 0 <= j < files.len() ==> cdh_at(d, #[trigger] cd_pos(d, start, j))
-        && parsed_matches(files[j], dec_cdh(d, cd_pos(d, start, j)), cd_pos(d, start, j) as u64, aoff)
-}
+// cd_pos / dir_parsed: the directory walk of C03 (n records, each parsed per APPNOTE, in order)
+//@include spec/dir_parsed.rs
 pub open spec fn dir_start_of(files: Seq<ZipFileData>) -> int { if files.len() > 0 { files[0].central_header_start as int } else { 0 } }
 // lookup by name returns the LAST entry with that name
 pub open spec fn names_last_wins(files: Seq<ZipFileData>, m: Map<String, usize>) -> bool {
